@@ -10,8 +10,9 @@ breaks the proofs.  Two ties to the running code:
    exact rationals (this is also a differential test of the reading of `@`, `.T`, `inv` and of the argument order);
  * numeric law sweep on the implementation only (shapes 1..30 x 1..40, diagonal / correlated / widely scaled SPD
    covariances, dense / rank-deficient / zero / strong / weak Jacobians): every clause of the property, incl. the
-   ones that are only partly proved (whole complex spectrum of A in [0,1), the two limits), with tolerances derived from
-   the condition numbers of the diagonally normalised problem.
+   whole complex spectrum of A in [0,1), self-adjointness of A for x^T Sa^-1 y with Rayleigh quotient in [0,1)
+   (theorem A_symmetrised), and the two limits both in norm and entry by entry against the proved O(d) / O(e) rates
+   (theorems A_vanishing_*_rate), with tolerances derived from the condition numbers of the diagonally normalised problem.
 
 Tolerances.  With d_a = sqrt(diag S_a), d_y = sqrt(diag S_y) the problem is rewritten in the normalised variables
 K~ = D_y^-1 K D_a, S_a~ = D_a^-1 S_a D_a^-1, S_y~ = D_y^-1 S_y D_y^-1 (unit diagonals), in which "widely varying
@@ -35,9 +36,11 @@ TRUSTED = [
     "of the argument order is cross-checked by the exact-rational evaluation of the same source expressions against the running code",
     "numpy `@` / `.T` and scipy.linalg.inv compute matrix product, transpose and inverse up to rounding (bridged by "
     "conditioning-scaled tolerances case by case, never globally)",
-    "the complex spectrum of A and the passage to the two limits are checked numerically only (no spectral theory / topology on "
-    "matrices in the installed Coq libraries); proved instead: eigenvalues in the ordered field lie in [0,1), S <= S_a, and the "
-    "quadratic-form bounds x^T S x <= d x^T S_a x (prior d S_a) and x^T S x <= e x^T (K^T S_y^-1 K)^-1 x (noise e S_y)",
+    "spectral clause: proved over every ordered field that A is self-adjoint for x^T S_a^-1 y with Rayleigh quotient in [0,1), has no "
+    "complex eigenpairs and no Jordan blocks, and over every real closed field (R[i] algebraically closed, mathcomp real_closed) that "
+    "the whole spectrum is real in [0,1) and the characteristic polynomial splits; NOT constructed: an eigenbasis (diagonalisation). "
+    "The two limits are proved as epsilon-delta statements uniformly in the entries, with explicit O(d) / O(e) entry bounds; the numeric "
+    "sweep of the complex spectrum and of the limits is kept as the tie of these theorems to the floating-point code",
 ]
 U = 2.0 ** -53
 CONST = 32.0          # safety constant of the first-order error bounds
@@ -229,6 +232,16 @@ def check_case(fns, case, limits=False):
     Sai = np.linalg.solve(N.Sat, I)
     law("A-is-I-minus-S-Sainv", np.abs(At - (I - St @ Sai)), N.TA + N.TS @ np.abs(Sai) + p * c * (1 + N.nS * N.iSa * N.ksa),
         "averaging_kernel_matrix differs from I - error_covariance_matrix Sa^-1")
+    # --- A is self-adjoint for x^T Sa^-1 y (theorem A_symmetrised): A Sa = Sa - S is symmetric, 0 <= A Sa < Sa (Loewner), i.e. the
+    #     Rayleigh quotient x^T Sa^-1 A x / x^T Sa^-1 x lies in [0, 1)
+    ASa = At @ N.Sat
+    EASa = N.TA @ np.abs(N.Sat) + 2 * c * (np.abs(At) @ np.abs(N.Sat))
+    law("A-symmetrised", np.abs(ASa - ASa.T), EASa + EASa.T, "averaging_kernel_matrix Sa is not symmetric (A is not self-adjoint for x^T Sa^-1 y)")
+    ASs = (ASa + ASa.T) / 2
+    fASa = float(np.linalg.norm(EASa))
+    law("A-rayleigh", max(-float(np.linalg.eigvalsh(ASs)[0]), max(1 / N.nN - float(np.linalg.eigvalsh(N.Sat - ASs)[0]), 0.0), 0.0),
+        fASa + p * c * N.nSa + 1e-9 / N.nN,
+        "the Rayleigh quotient of averaging_kernel_matrix for the inner product x^T Sa^-1 y leaves [0, 1): A Sa is not within [0, Sa - 1/||N||]")
     # --- spectrum of A in [0, 1): A = S^(1/2) H S^(-1/2) with H symmetric, so eigenvalue errors are bounded by
     #     sqrt(cond S) * ||dA|| (Bauer-Fike)
     ev = np.linalg.eigvals(At)
@@ -296,6 +309,13 @@ def check_case(fns, case, limits=False):
         full_rank = m >= n and N.lminB > 1e-6 * max(N.nB, 1e-300)
         b_noise = N.iSa / N.lminB if full_rank else None
         b_prior = N.nSa * N.nB
+        # entrywise rates of the theorems A_vanishing_prior_rate / A_vanishing_noise_rate, applied to the normalised problem
+        # (unit diagonals):  |A_d ij| <= d/2 (Sa_ii + (B Sa B)_jj),  |(I - A_e) ij| <= e/2 (Bi_ii + (Sa^-1 Bi Sa^-1)_jj), Bi = B^-1
+        r_prior = 0.5 * (np.diag(N.Sat)[:, None] + np.diag(N.Bt @ N.Sat @ N.Bt)[None, :])
+        if full_rank:
+            Bi = np.linalg.inv(N.Bt)
+            Wt = np.linalg.solve(N.Sat, I)
+            r_noise = 0.5 * (np.diag(Bi)[:, None] + np.diag(Wt @ Bi @ Wt)[None, :])
         for t in (1e-2, 1e-4, 1e-6, 1e-8):
             if full_rank:
                 Ae, e = call(fns["averaging_kernel_matrix"], K, Sa, t * Sy)
@@ -309,6 +329,8 @@ def check_case(fns, case, limits=False):
                     if not dev <= bound + Ne.fA:
                         bad.append(("limit-noise", f"||I - A|| = {dev:.3e} for measurement noise scaled by {t} exceeds the bound "
                                     f"{bound:.3e} that tends to zero (K has full column rank, {m}x{n})"))
+                    law("limit-noise-entries", np.abs(I - Ne.nA_(Ae)), t * r_noise * (1 + 1e-6) + Ne.TA,
+                        f"an entry of I - A for measurement noise scaled by {t} exceeds its proved O(e) bound")
             Ad, e = call(fns["averaging_kernel_matrix"], K, t * Sa, Sy)
             Nd = Norm(K, t * Sa, Sy)
             if Ad is None:
@@ -320,6 +342,8 @@ def check_case(fns, case, limits=False):
                 if not dev <= bound + Nd.fA:
                     bad.append(("limit-prior", f"||A|| = {dev:.3e} for prior covariance scaled by {t} exceeds the bound {bound:.3e} "
                                 f"that tends to zero ({m}x{n})"))
+                law("limit-prior-entries", np.abs(Nd.nA_(Ad)), t * r_prior * (1 + 1e-6) + Nd.TA,
+                    f"an entry of A for prior covariance scaled by {t} exceeds its proved O(d) bound")
     return bad, {"ill": N.ill, "ratios": ratios, "kN": N.kN, "nK": N.nK}
 
 
